@@ -25,6 +25,18 @@ CLAIMED = {
   text="Lean 4 theorems on the same SendBatch model plus multi.add / multi.toProto: invalid_rejected_unsent (mixed tables / duplicate / non-batchable at any position: nothing is queued, every slot has an error), round0_partition, per_region_order (inside every multi the actions of a region are the queued calls of that region in batch order, for any region order and dropped contexts), same_region_order across retries, only_retryable_resent, success_never_resent, ended_never_resent. Correspondence as C07, plus the per-region view of a real region.multi built from each queued slice and per-call execution counts.",
   note="Trusted: as C07. At-least-once after a lost response is inherent and outside the property.",
   tech="Lean 4 proof (sublist/order laws, only-retryable-resent) + differential correspondence"),
+ "C03": dict(
+  text="Lean 4 theorems over ALL action sequences of a transition system of one region connection (actions = API calls and completions of net.Conn operations with environment-chosen results: every failure position of every Write unit / SetReadDeadline / Read, every initiator — writer, direct sender, reader, timeout, external Close — every interleaving at that granularity): single_owner (counting invariant: every handed call is in exactly one place), at_most_once, no_stranding (done and quiescent => every handed call was completed exactly once or its context had ended), failure_delivers_connErr, refused_after_done. Correspondence: event-log replay of the real region client on a gated in-memory net.Conn + monitors for double completion, stranded calls and refusal after failure.",
+  note="Trusted: Lean kernel; Model/Conn.lean is tied to region/client.go by exact replay of the real client's event log (every net.Conn operation gated on a scripted in-memory connection; quiescence by goroutine-state inspection) up to the first mutex contention, after which the Go scheduler decides and only the monitors judge; flushInterval = 0; conn.Close not a separate action; FIFO mutex hand-off; call ids do not wrap.",
+  tech="Lean 4 proof (inductive counting invariant over a labelled transition system) + trace replay of the implementation"),
+ "C18": dict(
+  text="Lean 4 theorems on the same connection model: counter_tracks_outstanding and deadline_tracks_outstanding (in every reachable, not failed, quiescent state the in-flight counter equals the number of registered requests and the read deadline is armed iff something is outstanding — including responses that overtake the return of Write, responses for cancelled calls and multis), idle_never_times_out, timeout_fails_everything. Correspondence: replay + a monitor at every quiescent point of the implementation (counter drift, deadline armed while idle, deadline missing).",
+  note="Trusted: Lean kernel; Model/Conn.lean is tied to region/client.go by exact replay of the real client's event log (every net.Conn operation gated on a scripted in-memory connection; quiescence by goroutine-state inspection) up to the first mutex contention, after which the Go scheduler decides and only the monitors judge; flushInterval = 0; conn.Close not a separate action; FIFO mutex hand-off; call ids do not wrap. Wall-clock: only whether a deadline is armed is checked, not its value.",
+  tech="Lean 4 proof (invariant relating counter, registered requests, sends in progress and deadline) + trace replay"),
+ "C02": dict(
+  text="Lean 4 theorems on the same connection model: delivery_correlates (a response-derived result reaches only a call whose request was registered under the wire id of that response), wire_ids_unique / fresh_wire_id (ids strictly increase; two items never share an id), wire_id_per_call. Correspondence: replay with 1..6 concurrent callers grouped into multis, responses in any order, permuted multi results, per-action and per-region exceptions, cells in protobuf form or in the trailing cellblock; every response carries the row of the request it answers and the monitor checks each caller got exactly its own row.",
+  note="Trusted: Lean kernel; Model/Conn.lean is tied to region/client.go by exact replay of the real client's event log (every net.Conn operation gated on a scripted in-memory connection; quiescence by goroutine-state inspection) up to the first mutex contention, after which the Go scheduler decides and only the monitors judge; flushInterval = 0; conn.Close not a separate action; FIFO mutex hand-off; call ids do not wrap. The per-action dispatch inside a multi (index, cell counts) is tied by the monitor and by C05/C11, not by this model (which delivers one result class per call).",
+  tech="Lean 4 proof (correlation invariant on wire ids) + trace replay with payload-carrying responses"),
 }
 
 PENDING = "check not integrated yet (work in progress; see DESIGN.md build order)"
